@@ -5,14 +5,14 @@ import "gosym/sym"
 func init() {
 	Register(&Spec{
 		ID:    "C05",
-		Level: "model_checking",
+		Level: "model_checking", CrossSolver: true,
 		Explanation: "bounded symbolic execution of pngmeta/jpegmeta/webpmeta/autometa.Load on skeleton files whose layout (chunk/segment lengths and count) is concrete and whose every field and payload byte is symbolic: one solver query per metadata field proves md.PixelWidth/PixelHeight/BitsPerComponent/Format equal the container specification's bytes for all values of the dimension fields, colour type, bit depth, interlace, sampling factors, marker kinds and ancillary chunk types at once",
 		Bounds: func(tier string) map[string]interface{} {
 			return map[string]interface{}{
-				"png":     "signature, IHDR(13 symbolic bytes + symbolic CRC), k<=2 ancillary chunks (symbolic type not in {IHDR,iCCP,IDAT,IEND}, length in {0,1,5}, symbolic payload/CRC), IDAT start",
-				"jpeg":    "SOI, k<=2 segments (marker symbolic in APP0-15/COM/DQT/DHT/DRI, payload length in {0,1,4}), SOF0|SOF2 with Nf in {1,3,4} (all frame-header bytes symbolic), SOS",
-				"webp":    "VP8 (30 bytes + {0,5,10} trailing), VP8L (25 bytes + trailing), VP8X without ICC flag (30 bytes + trailing); RIFF size field, frame tag, scale bits, alpha/version bits symbolic",
-				"auto":    "same skeletons through autometa.Load with k<=1",
+				"png":      "signature, IHDR(13 symbolic bytes + symbolic CRC), k<=2 ancillary chunks (symbolic type not in {IHDR,iCCP,IDAT,IEND}, length in {0,1,5}, symbolic payload/CRC), IDAT start",
+				"jpeg":     "SOI, k<=2 segments (marker symbolic in APP0-15/COM/DQT/DHT/DRI, payload length in {0,1,4}), SOF0|SOF2 with Nf in {1,3,4} (all frame-header bytes symbolic), SOS",
+				"webp":     "VP8 (30 bytes + {0,5,10} trailing), VP8L (25 bytes + trailing), VP8X without ICC flag (30 bytes + trailing); RIFF size field, frame tag, scale bits, alpha/version bits symbolic",
+				"auto":     "same skeletons through autometa.Load with k<=1",
 				"thorough": "k<=3 ancillary chunks/segments", "outside": "more than 2 (thorough 3) ancillary chunks/segments, payloads longer than 5 bytes, multi-SOF files, DecodeConfig cross-check of the standard decoders (the oracle here is the byte layout of the container specifications)",
 			}
 		},
